@@ -105,7 +105,9 @@ def sexpToView? (names : List Str) : Sexp → Option View
 
 /-- Hypothesis of the proved round-trip theorem, as evaluated on a case. -/
 def inP (h : Heap) (main : Nat) : Bool :=
-  wellFormed h main && noOwn h && noCb h && lateCyclesBy (candidateRank h) h
+  wellFormed h main && noOwn h &&
+    ((noCb h && lateCyclesBy (candidateRank h) h) ||
+     (noGenCb h && mainPlain h main && cyclesBy (candidateRank h) h && coveredBy (candidateDist h main) h main))
 
 /-- The strict Spec on an observable of the `fw` family: the trip succeeded, and by name every object
 has the class and fields that were saved; distinct names are distinct objects. -/
